@@ -18,8 +18,8 @@ using namespace cm;
 using hz::Plan; using hz::Result; using hz::Violation;
 namespace be = amgcl::backend;
 
-enum { T_FLOAT, T_DOUBLE, T_LDOUBLE, T_COMPLEX, T_BLOCK2, T_BLOCK_CRS, T_HYBRID, T_EIGEN, T_EIGEN_COMPLEX, NTYPE };
-static const char *type_names[] = { "float", "double", "long_double", "complex", "block2x2", "block_crs", "builtin_hybrid", "eigen", "eigen_complex" };
+enum { T_FLOAT, T_DOUBLE, T_LDOUBLE, T_COMPLEX, T_BLOCK2, T_BLOCK_CRS, T_HYBRID, T_EIGEN, T_EIGEN_COMPLEX, T_STATIC_OPS, NTYPE };
+static const char *type_names[] = { "float", "double", "long_double", "complex", "block2x2", "block_crs", "builtin_hybrid", "eigen", "eigen_complex", "static_matrix_ops" };
 
 template <class T> struct mk { static T num(long re, long) { return (T)re; } static T poison(int k) { return k == 0 ? std::numeric_limits<T>::quiet_NaN() : k == 1 ? std::numeric_limits<T>::infinity() : -std::numeric_limits<T>::infinity(); } };
 template <> struct mk<std::complex<double> > { typedef std::complex<double> T; static T num(long re, long im) { return T((double)re, (double)im); } static T poison(int k) { double q = mk<double>::poison(k); return T(q, q); } };
@@ -90,7 +90,9 @@ static void run_block(Ctx &c) {
     std::vector<R> x(m), y(n), out(n); std::vector<double> xs(2 * m), ys(2 * n), outs(2 * n);
     for (long i = 0; i < m; ++i) for (int a = 0; a < 2; ++a) xs[2*i+a] = x[i](a) = (double)c.r.range(-8, 8);
     for (long i = 0; i < n; ++i) for (int a = 0; a < 2; ++a) ys[2*i+a] = y[i](a) = (double)c.r.range(-8, 8);
-    auto Ax = [&](long i) { R s = amgcl::math::zero<R>(); for (ptrdiff_t j = A.ptr[i]; j < A.ptr[i+1]; ++j) s += A.val[j] * x[A.col[j]]; return s; };
+    // expectations are computed element by element in plain doubles, NOT with the static_matrix operators under test
+    auto mkR = [](double a0, double a1) { R r; r(0) = a0; r(1) = a1; return r; };
+    auto Ax = [&](long i) { double s0 = 0, s1 = 0; for (ptrdiff_t j = A.ptr[i]; j < A.ptr[i+1]; ++j) { const B &b = A.val[j]; const R &v = x[A.col[j]]; s0 += b(0, 0) * v(0) + b(0, 1) * v(1); s1 += b(1, 0) * v(0) + b(1, 1) * v(1); } return mkR(s0, s1); };
     double al = (double)c.p.get("alpha"), bt = (double)c.p.get("beta");
     for (long i = 0; i < n; ++i) for (int a = 0; a < 2; ++a) { out[i](a) = mk<double>::poison((c.poison + i + a) % 3); outs[2*i+a] = out[i](a); }
     c.res.faults["poisoned_output"]++;
@@ -143,6 +145,50 @@ static void run_block(Ctx &c) {
       std::vector<double> rh(2 * n, 7.0); be::residual(ys, *H, xs, rh);
       for (long i = 0; i < n; ++i) if (rh[2*i] != rb[i](0) || rh[2*i+1] != rb[i](1)) { c.fail("residual", "hybrid-backend", fmt("block row %ld", i)); break; }
     }
+}
+
+
+template <class T> static double ip_elem(const T &ip, int i, int j) { return ip(i, j); }
+static inline double ip_elem(double ip, int, int) { return ip; }
+
+// static_matrix value type: every operator and math:: specialisation against plain loops over the elements (integer data: exact).
+// The block primitives above compute their expectations with these operators too, so the operators themselves are checked here.
+template <int N, int M, int K>
+static void run_static_ops(Ctx &c) {
+    namespace m = amgcl::math;
+    typedef amgcl::static_matrix<double, N, M> A_t; typedef amgcl::static_matrix<double, M, K> B_t; typedef amgcl::static_matrix<double, N, K> C_t;
+    auto fail = [&](const char *op, const std::string &d) { Violation v; v.oracle = "formula"; v.add("component", "static_matrix"); v.add("clause", op); v.add("value_type", fmt("%dx%d*%dx%d", N, M, M, K)); v.detail = d; c.res.fail(v); };
+    for (int rep = 0; rep < 4; ++rep) {
+        A_t a, a2; B_t b; double da[N][M], da2[N][M], db[M][K];
+        for (int i = 0; i < N; ++i) for (int j = 0; j < M; ++j) { da[i][j] = (double)c.r.range(-5, 5); da2[i][j] = (double)c.r.range(-5, 5); a(i, j) = da[i][j]; a2(i, j) = da2[i][j]; }
+        for (int i = 0; i < M; ++i) for (int j = 0; j < K; ++j) { db[i][j] = (double)c.r.range(-5, 5); b(i, j) = db[i][j]; }
+        double s = (double)c.r.range(-3, 3);
+        // element access: (i,j) and linear index are row-major views of the same storage
+        for (int i = 0; i < N; ++i) for (int j = 0; j < M; ++j) if (a(i * M + j) != da[i][j] || a.data()[i * M + j] != da[i][j]) { fail("element-access", fmt("(%d,%d)", i, j)); break; }
+        { C_t p = a * b; for (int i = 0; i < N; ++i) for (int j = 0; j < K; ++j) { double w = 0; for (int k = 0; k < M; ++k) w += da[i][k] * db[k][j]; if (p(i, j) != w) { fail("matrix-product", fmt("(%d,%d) = %g, definition %g", i, j, p(i, j), w)); i = N; break; } } }
+        { A_t p = a + a2, q = a - a2, n1 = -a, sc = s * a, t = a; t += a2; A_t u = a; u -= a2; A_t w2 = a; w2 *= s;
+          for (int i = 0; i < N; ++i) for (int j = 0; j < M; ++j) {
+            if (p(i, j) != da[i][j] + da2[i][j]) { fail("operator+", fmt("(%d,%d)", i, j)); i = N; break; } if (q(i, j) != da[i][j] - da2[i][j]) { fail("operator-", fmt("(%d,%d)", i, j)); i = N; break; }
+            if (n1(i, j) != -da[i][j]) { fail("unary-minus", fmt("(%d,%d)", i, j)); i = N; break; } if (sc(i, j) != s * da[i][j]) { fail("scalar*matrix", fmt("(%d,%d) = %g, definition %g", i, j, sc(i, j), s * da[i][j])); i = N; break; }
+            if (t(i, j) != da[i][j] + da2[i][j]) { fail("operator+=", fmt("(%d,%d)", i, j)); i = N; break; } if (u(i, j) != da[i][j] - da2[i][j]) { fail("operator-=", fmt("(%d,%d)", i, j)); i = N; break; }
+            if (w2(i, j) != s * da[i][j]) { fail("operator*=", fmt("(%d,%d) = %g, definition %g", i, j, w2(i, j), s * da[i][j])); i = N; break; } } }
+        { auto at = m::adjoint(a); for (int i = 0; i < N; ++i) for (int j = 0; j < M; ++j) if (at(j, i) != da[i][j]) { fail("adjoint", fmt("(%d,%d)", j, i)); i = N; break; } }
+        { double fro = 0; for (int i = 0; i < N; ++i) for (int j = 0; j < M; ++j) fro += da[i][j] * da[i][j]; if (std::fabs(m::norm(a) - std::sqrt(fro)) > 1e-14 * (1 + std::sqrt(fro))) fail("norm", fmt("%g vs Frobenius %g", (double)m::norm(a), std::sqrt(fro))); }
+        { auto ip = m::inner_product(a, a2);      // x^H-free convention of the library: sum_k x(k,i) * adjoint(y(k,j))  (M x M), a scalar for column vectors
+          for (int i = 0; i < M; ++i) for (int j = 0; j < M; ++j) { double w = 0; for (int k = 0; k < N; ++k) w += da[k][i] * da2[k][j]; double g = ip_elem(ip, i, j); if (g != w) { fail("inner_product", fmt("(%d,%d) = %g, definition %g", i, j, g, w)); i = M; break; } } }
+        { A_t z = m::zero<A_t>(), k5 = m::constant<A_t>(5.0); bool zok = m::is_zero(z) && !m::is_zero(k5) && (N * M == 0 || !m::is_zero(a) || [&]() { for (int i = 0; i < N; ++i) for (int j = 0; j < M; ++j) if (da[i][j] != 0) return false; return true; }());
+          for (int i = 0; i < N * M; ++i) if (z(i) != 0 || k5(i) != 5.0) zok = false; if (!zok) fail("zero/constant/is_zero", "wrong element"); }
+        { A_t z = m::zero<A_t>(); z(N - 1, M - 1) = 1; if (m::is_zero(z)) fail("is_zero", "a matrix whose last element is non-zero is reported zero"); }
+    }
+    c.res.counts["static_matrix_operator_sets"]++;
+}
+template <int N> static void run_static_square(Ctx &c) {
+    namespace m = amgcl::math; typedef amgcl::static_matrix<double, N, N> S;
+    S I = m::identity<S>(); for (int i = 0; i < N; ++i) for (int j = 0; j < N; ++j) if (I(i, j) != (i == j ? 1.0 : 0.0)) { Violation v; v.oracle = "formula"; v.add("component", "static_matrix"); v.add("clause", "identity"); v.add("value_type", fmt("%dx%d", N, N)); v.detail = "identity"; c.res.fail(v); return; }
+    // inverse of a diagonally dominant integer matrix: A * inv(A) = I to rounding
+    S a; double d[N][N]; for (int i = 0; i < N; ++i) for (int j = 0; j < N; ++j) { d[i][j] = i == j ? 8.0 + i : (double)c.r.range(-1, 1); a(i, j) = d[i][j]; }
+    S ai = m::inverse(a); double worst = 0; for (int i = 0; i < N; ++i) for (int j = 0; j < N; ++j) { double w = 0; for (int k = 0; k < N; ++k) w += d[i][k] * ai(k, j); worst = std::max(worst, std::fabs(w - (i == j ? 1.0 : 0.0))); }
+    if (!(worst <= 1e-12)) { Violation v; v.oracle = "formula"; v.add("component", "static_matrix"); v.add("clause", "inverse"); v.add("value_type", fmt("%dx%d", N, N)); v.detail = fmt("A*inverse(A) deviates from I by %.3g", worst); c.res.fail(v); }
 }
 
 // block_crs backend: sizes not divisible by the block size --------------------------------------------
@@ -235,6 +281,7 @@ Result execute(const Plan &p) {
                 case T_COMPLEX: run_scalar<std::complex<double> >(c); break;
                 case T_BLOCK2: case T_HYBRID: run_block(c); break;
                 case T_BLOCK_CRS: run_block_crs(c); break;
+                case T_STATIC_OPS: run_static_ops<2,2,2>(c); run_static_ops<3,3,3>(c); run_static_ops<2,1,1>(c); run_static_ops<3,1,1>(c); run_static_ops<2,3,2>(c); run_static_ops<4,4,1>(c); run_static_square<2>(c); run_static_square<3>(c); run_static_square<4>(c); break;
                 case T_EIGEN_COMPLEX: run_eigen<std::complex<double> >(c); break;
                 default: run_eigen<double>(c); break;
             }
